@@ -98,6 +98,9 @@ type Unit struct {
 	lockDefault bool // lock heaps start all-free (function entered with no modelled lock held)
 	declared    map[string]bool
 	heapType    map[string]types.Type
+	defMemo     map[string]string
+	lastDef     string
+	ifacePay    map[string]Term
 }
 
 func (un *Unit) note(s string) { un.notes[s] = true }
@@ -114,8 +117,13 @@ func (un *Unit) define(prefix string, t Term) Term {
 	if len(t.S) < 24 || un.inQuant > 0 {
 		return t
 	}
+	if n, ok := un.defMemo[t.S]; ok {
+		return Term{n, t.Sort}
+	}
+	defer func() { un.defMemo[t.S] = un.lastDef }()
 	un.nfresh++
 	n := fmt.Sprintf("%s!%d", sanitize(prefix), un.nfresh)
+	un.lastDef = n
 	if t.Sort == SBool {
 		// Boolean names are macros: quantifiers inside keep their polarity (skolemisation), and
 		// Boolean names never occur in patterns
